@@ -545,3 +545,61 @@ def function_names_exact(O):
         R.prove(O, p, got == want, "a function is found only under exactly its name", extra=[tg == bv64(1)])
     if n == 0:
         O.inconclusive("vacuous: FuncTable::get never finds an entry")
+
+
+BINOP_TOKENS = ("Plus", "Minus", "Times", "Divide", "Reminder", "And", "Or", "Xor", "ShiftLeft", "ShiftRight", "Equal", "NotEqual",
+                "LessThan", "GreaterThan", "LessThanOrEqual", "GreaterThanOrEqual")
+
+
+def row_entries_separate(O, R, nsig=2):
+    """after a closed parenthesised entry `( n )` the row parser never consumes a binary operator: an operator between two
+    entries does not join them"""
+    m, fn, eng, ts, paths = _explore_fn(O, "::parse_data_row", 2, ("LParen", "DecInt", "RParen"), nsig)
+    ops = [bv64(m.vidx("TokenKind", k)) for k in BINOP_TOKENS if k in m.enums["TokenKind"]]
+    nok = 0
+    for p in paths:
+        eng.focus(p)
+        if p.outcome != "return":
+            continue
+        rt = eng.tag_of(p.ret, None)
+        r, _ = O.solve(list(p.pc) + [rt == bv64(0)], want_model=False)
+        if r != "sat":
+            continue
+        nok += 1
+        cons = p.state.extra.get("consumed", [])
+        if 3 in cons:
+            R.prove(O, p, z3.Not(z3.Or([ts.kinds[3] == o for o in ops])), "an accepted row does not consume a binary operator after a "
+                    "closed parenthesised entry", extra=[rt == bv64(0)])
+    if nok == 0:
+        O.inconclusive("vacuous: no accepted row starts with a parenthesised entry")
+
+
+@obligation("C12/row-entries-are-separate", profiles=("dev",),
+            desc="parse_data_row over `( n )` + every 2 token kinds, 2 columns: whenever the row is accepted, the token after the closing "
+                 "parenthesis - if consumed - is no binary operator (two entries are never merged by an operator written between them)")
+def o_row_entries_separate(O):
+    row_entries_separate(O, rep())
+
+
+def bits_entry_kept(O, R):
+    """`bits(k, e)` is stored as a Bits entry with that k (never simplified into a plain expression entry, also for k = 1)"""
+    m, fn, eng, ts, paths = _explore_fn(O, "::parse_data_row", 0, ("Bits", "LParen", "DecInt", "Comma", "DecInt", "RParen"), 1)
+    nok = 0
+    for p in paths:
+        eng.focus(p)
+        if p.outcome != "return":
+            continue
+        rt = eng.tag_of(p.ret, None)
+        r, _ = O.solve(list(p.pc) + [rt == bv64(0)], want_model=False)
+        if r != "sat":
+            continue
+        nok += 1
+        data = vec_slice(eng, eng.field(eng.downcast(p.ret, "Ok"), 0))
+        elems = data.elems or []
+        if len(elems) != 1:
+            R.fail(O, p, "bits(k, e) under one column is stored as %d entries" % len(elems), extra=[rt == bv64(0)])
+            continue
+        R.prove(O, p, eng.tag_of(elems[0][1], None) == bv64(m.vidx("DataEntry", "Bits")), "bits(k, e) is stored as a Bits entry (k = 1 included)",
+                extra=[rt == bv64(0)])
+    if nok == 0:
+        O.inconclusive("vacuous: bits(1, e) under one column is never accepted")
